@@ -102,7 +102,12 @@ STRUCTURAL_CONSUMED = {'merge': ('seq-empty', 'map-empty', 'map-ab', 'long', 'st
                        'omap-entry': ('map-ab',), 'pairs-entry': ('map-ab',)}
 
 
-def check_doc(T, sub, case, doc, tag, kind, ctx, profile):
+def check_doc(T, sub, case, doc, tag, kind, ctx, profile, prime=()):
+    for fn in prime:          # a more trusting loader reads the same document first (monitors off): non-initial state
+        try:
+            fn(doc)
+        except Exception:
+            pass
     cls, name = classify(tag)
     exp_obj = None
     if cls == 'name':
@@ -155,6 +160,13 @@ def check_doc(T, sub, case, doc, tag, kind, ctx, profile):
                 T.count('rejected-by-' + res[1])
         T.outcome((expect, res[0], res[1] if res[0] != 'ok' else type(res[1]).__name__))
     T.nontrivial += 1 if cls not in ('core', 'special') else 0
+
+
+PRIME_UNSAFE = (lambda d: yaml.load(d, Loader=yaml.UnsafeLoader), lambda d: yaml.load(d, Loader=yaml.CUnsafeLoader))
+
+
+def _is_canary(name):
+    return name == 'vf_canary' or name.startswith('vf_canary.')
 
 
 def walk(obj, allowed_ids):
@@ -211,7 +223,7 @@ def run_job(job, T):
             for kn, ktext in G.KINDS:
                 for c in (CONTEXTS if name.startswith('vf_canary') else ('root', 'map-key', 'aliased', 'merge', 'set-member', 'nested-py')):
                     doc = G.in_context(c, '%s %s' % (tag, ktext))
-                    check_doc(T, 'canary-names', {'doc': doc, 'tag': tag, 'kind': kn, 'context': c}, doc, tag, kn, c, True)
+                    check_doc(T, 'canary-names', {'doc': doc, 'tag': tag, 'kind': kn, 'context': c, 'primed': _is_canary(name)}, doc, tag, kn, c, True, prime=PRIME_UNSAFE if _is_canary(name) else ())
         if doc:
             T.sample('canary-names', {'doc': doc})
     elif kind == 'registered':
@@ -251,7 +263,7 @@ def finalize(agg, tier, seed):
 
 
 def replay(sub, case, T):
-    check_doc(T, sub, case, case['doc'], case['tag'], case['kind'], case['context'], True)
+    check_doc(T, sub, case, case['doc'], case['tag'], case['kind'], case['context'], True, prime=PRIME_UNSAFE if case.get('primed') else ())
 
 
 def snippet(sub, case):
